@@ -214,6 +214,13 @@ def check_design(ctx: Ctx, d: dict, r: dict, exprs: list, meta: list):
                 meta.append((d, t, m))
 
 
+def alias_spelling(x: str) -> str:
+    """The other documented spelling of a parametric deletion (offset zero when absent): 2del0 <-> 2del."""
+    import re
+    m = re.fullmatch(r'(\d+)del(0?)', x)
+    return x if not m else (m.group(1) + 'del' + ('' if m.group(2) else '0'))
+
+
 def files(ctx: Ctx):
     n = ctx.n(120, 1500)
     focus = {'p_bg': 0.0, 'p_custom': 0.2, 'p_pam': 0.4, 'allow_junction_pam': False,
@@ -221,27 +228,19 @@ def files(ctx: Ctx):
              'cds_mut': ['snvre', 'inframe'], 'allow_short_cds': False}
     designs = [gen.gen_sge(ctx.rng, focus) for _ in range(n)]
     designs += [gen.gen_cdna(ctx.rng, {}) for _ in range(n // 4)]
-    # drop alias pairs (1del with 1del0, 2del with 2del0) - finding C02-alias-dup is probed separately
+    # alias pairs (1del with 1del0, 2del with 2del0) stay in: one mutator, its rows once (defect repaired in 3846a61); a fifth of the
+    # groups with a parametric deletion get the other spelling added
     for d in designs:
         for t in d['targetons']:
-            acts = t['action'] if d['mode'] == 'sge' else [None]
             if d['mode'] == 'cdna':
-                seen, keep = set(), []
-                for m in t['action']:
-                    p = parse_label(m) or m
-                    if p not in seen:
-                        seen.add(p)
-                        keep.append(m)
-                t['action'] = keep
+                extra = [alias_spelling(m) for m in t['action'] if alias_spelling(m) != m and ctx.rng.random() < 0.2]
+                t['action'] = t['action'] + extra
             else:
-                for i, g in enumerate(acts):
-                    seen, keep = set(), []
-                    for m in [x.strip() for x in g.split(',') if x.strip()]:
-                        p = parse_label(m) or m
-                        if p not in seen:
-                            seen.add(p)
-                            keep.append(m)
-                    t['action'][i] = ', '.join(keep)
+                for i, g in enumerate(t['action']):
+                    items = [x.strip() for x in g.split(',') if x.strip()]
+                    extra = [alias_spelling(m) for m in items if alias_spelling(m) != m and ctx.rng.random() < 0.2]
+                    if extra:
+                        t['action'][i] = ', '.join(items + extra)
     results = pool_map(design_case, designs)
     exprs, meta = [], []
     for d, r in results:
